@@ -104,8 +104,28 @@ class Engine:
 _WORKER_ENGINE = None
 
 
-def _worker_init(repo):
+def _worker_init(repo, main_pid=None):
     global _WORKER_ENGINE
+    if main_pid:
+        # (the fork server survives the death of the main process, so PDEATHSIG alone is not enough: watch the main pid)
+        import threading
+
+        def watch():
+            while True:
+                time.sleep(2.0)
+                try:
+                    os.kill(main_pid, 0)
+                except OSError:
+                    os._exit(1)
+        threading.Thread(target=watch, daemon=True).start()
+    # a worker must never outlive the run that started it (an orphan keeps a core and gigabytes busy and slows every later
+    # run down until solver budgets are missed): ask the kernel to kill it when its parent goes away
+    try:
+        import ctypes
+        import signal as _signal
+        ctypes.CDLL("libc.so.6", use_errno=True).prctl(1, _signal.SIGKILL)      # PR_SET_PDEATHSIG
+    except Exception:       # noqa: BLE001
+        pass
     _WORKER_ENGINE = Engine(repo)
 
 
@@ -230,6 +250,27 @@ def _machinery_digest() -> str:
     return h.hexdigest()
 
 
+def _prune_cache(cdir: str, max_bytes: int = 1_500_000_000, keep_s: int = 2 * 3600) -> None:
+    """Entries of older source / machinery digests are never read again: once the directory is large, drop what has not
+    been written for a while (the disk is small)."""
+    try:
+        names = os.listdir(cdir)
+        if len(names) < 20000:
+            total = sum(os.path.getsize(os.path.join(cdir, n)) for n in names)
+            if total < max_bytes:
+                return
+        now = time.time()
+        for n in names:
+            p = os.path.join(cdir, n)
+            try:
+                if now - os.path.getmtime(p) > keep_s:
+                    os.unlink(p)
+            except OSError:
+                pass
+    except OSError:
+        pass
+
+
 def _run_pool(eng, items, workers):
     """Run the work items in a process pool started through a fork server (forking a process that already holds z3 state can
     dead-lock); if no item completes for a long time the pool is abandoned and the remaining items are run in this process."""
@@ -238,7 +279,7 @@ def _run_pool(eng, items, workers):
     stall_s = float(os.environ.get("VERIF_STALL_S", "1200"))
     outs = [None] * len(items)
     ctx = mp.get_context("forkserver")
-    ex = ProcessPoolExecutor(max_workers=min(workers, max(1, len(items))), mp_context=ctx, initializer=_worker_init, initargs=(eng.repo,))
+    ex = ProcessPoolExecutor(max_workers=min(workers, max(1, len(items))), mp_context=ctx, initializer=_worker_init, initargs=(eng.repo, os.getpid()))
     stalled = False
     try:
         futs = {ex.submit(_worker_run, it): i for i, it in enumerate(items)}
@@ -279,6 +320,7 @@ def verify_parallel(eng: Engine, keys: list[str], tier: str, timeout_ms: int, wo
     root = os.path.dirname(os.path.dirname(os.path.abspath(__file__)))
     cdir = os.path.join(root, "build", "cache")
     use_cache = os.environ.get("VERIF_NOCACHE") != "1"
+    _prune_cache(cdir)
     base = eng.src.digest.hexdigest() + _machinery_digest()
     items = []
     skipped = {}
